@@ -1,26 +1,47 @@
 """C10 -- Myers traceback yields valid alignments consistent across all its APIs."""
 
 
+import os
+
+
 def plan(tier):
     q = tier == "quick"
+
+    def pre(ctx):
+        # spec -> impl: every history of 3 (4) calls of the protocol machine, replayed into the real matchers
+        import vlib
+        out = os.path.join(ctx["workdir"], "myers-proto-behaviours.ndjson")
+        n, desc = vlib.emit_behaviours("MyersProtoMC", "MyersProtoGen.cfg" if q else "MyersProtoGen_thorough.cfg",
+                                       ctx["workdir"], out)
+        if n == 0:
+            raise vlib.ToolError("no behaviours generated")
+        ctx["behaviours"]["myers_tb"] = out
+        ctx.setdefault("mc_desc", []).append(desc)
+
     return {
+        "pre": pre,
         "mc": [{"module": "MyersTbMC", "cfg": "MyersTbMC.cfg" if q else "MyersTbMC_thorough.cfg", "timeout": 3000}],
         "families": [{"fam": "myers_tb", "trace": "MyersTbTrace", "nfiles": 1 if q else 4}],
         "required_obligations": [
-            "exhaustive_small", "eager_hit_queried", "lazy_hit_queried", "lazy_frontier_plus_1",
+            "tlc_behaviours_replayed", "exhaustive_small", "eager_hit_queried", "lazy_hit_queried", "lazy_frontier_plus_1",
             "lazy_simple_any_searched_end", "simple_and_long_side_by_side", "simple_len_w",
             "long_block_exact_multi", "long_block_plus_1", "ring_wrap_long_text",
-            "reuse_big_then_small_then_lazy", "k_ge_m", "leading_insertions_text", "tables",
+            "reuse_big_then_small_then_lazy", "eager_stretched_alignment", "k_ge_m", "leading_insertions_text", "tables",
         ],
-        "rule": "one run = one pattern with a single-word and a block-based matcher object, each reused for the same "
+        "rule": "spec->impl: every history of 3 (thorough: 4) calls that TLC generates from the protocol machine "
+                "MyersProtoMC (next*/start/path/alignment, lazy_next/hit_at/path_at/alignment_at at hits seen and at the "
+                "frontier) for all patterns |p|<=2 (3), texts |t|=3 (<=4), k<=1 (2), replayed on a single-word and a "
+                "block-based object, every fourth one after a larger search on the same objects. impl->spec: "
+                "one run = one pattern with a single-word and a block-based matcher object, each reused for the same "
                 "sequence of searches (text, k, eager|lazy); eager: next/next_end/next_path(_reverse)/next_alignment mixed, "
                 "start/path(_reverse)/alignment of the current hit (repeated, and after the end); lazy: iteration in "
                 "bursts with hit_at/path_at(_reverse)/alignment_at at ends of hits seen so far in ascending, descending, "
                 "random order and repeated, at searched+1, |t|-1, |t|, |t|+3 (refused when not searched) and - single-word "
                 "version - at arbitrary searched ends; exhaustive over {a,b} (|p|<=3, |t|<=4/5, every k<=|p|) plus "
                 "|p| in {3,5,7,8,9,15,16,17,24,32,33,40,63,64,65,100} with u8..u64 words, texts of 100-120 symbols (ring "
-                "buffer wraps), texts beginning inside the pattern, k>=|p|, k=255, stale store after a larger search",
-        "bounds": {"mc": "Sym={0,1}, |p|<=3, |t|<=4/6, k<=3/4, eager and lazy, second search after two first searches",
+                "buffer wraps), texts beginning inside the pattern, the pattern stretched by d inserted symbols with k=d+1 (alignments as long as the ring buffer allows), k>=|p|, k=255, stale store after a larger search",
+        "bounds": {"mc": "store machine: Sym={0,1}, |p|<=3, |t|<=4/6, k<=3/4, eager and lazy, second search after two first "
+                         "searches; protocol machine: |p|<=2/3, |t|<=3/4, k<=1/2, all histories of 3/4 calls",
                    "impl": "|p|<=100, |t|<=120, k<=255"},
         "assumptions": ["TLC evaluates ValidPath/LastRow/GlobalDist faithfully; ndJsonDeserialize reads the recorded "
                         "values faithfully",
